@@ -266,8 +266,16 @@ func (env *Zlisp) MakeSymbol(name string) *SexpSymbol {
 }
 
 func (env *Zlisp) GenSymbol(prefix string) *SexpSymbol {
-	symname := prefix + strconv.Itoa(env.nextsymbol)
-	return env.MakeSymbol(symname)
+	// the name table is shared with duplicates and clones, whose counters
+	// run independently, and scripts can intern names of the same shape:
+	// skip every name that is already taken.
+	for {
+		symname := prefix + strconv.Itoa(env.nextsymbol)
+		if _, taken := env.symtable[symname]; !taken {
+			return env.MakeSymbol(symname)
+		}
+		env.nextsymbol++
+	}
 }
 
 func (env *Zlisp) CurrentFunctionSize() int {
